@@ -72,6 +72,11 @@ def _count_assignments(fn):
     return cnt
 
 
+def _is_ptr(t):
+    import re
+    return bool(re.search(r"\*\s*(const)?\s*$", t or ""))
+
+
 class Scanner:
     def __init__(self, fn, hooks=(), bind_params=None):
         self.fn = fn
@@ -87,6 +92,7 @@ class Scanner:
         self.opaque = set()
         self.in_loop_decls = set()
         self._seen_calls = set()
+        self.ptr_alias = {}        # local pointer decl -> (array text, offset): T* p = &a[e]
         self.range_alias = {}      # reference loop variable of a range-for over a container -> container text
         # aggregate types whose brace-initialised assignment is split into per-field stores
         # (field order is asserted against the class facts by the rules that rely on it)
@@ -97,8 +103,27 @@ class Scanner:
                     self.tr.bind(p["decl"], bind_params[p["name"]])
 
     # -- expression translation hook: arrays, calls ------------------------
+    def _elem_of(self, obj, depth=0):
+        """array an aggregate value was fetched from: a[e] itself, or a local copy / reference initialised with a[e]"""
+        obj = A.strip(obj, casts=False)
+        while obj.get("k") in ("CXXConstructExpr", "MaterializeTemporaryExpr", "ImplicitCastExpr") and len(obj.get("args", obj.get("c", []))) == 1:
+            obj = A.strip((obj.get("args") or obj.get("c"))[0], casts=False)
+        if obj["k"] == "ArraySubscriptExpr" or (obj["k"] == "CXXOperatorCallExpr" and obj.get("op") == "[]"):
+            base, idx = self._subscript_chain(obj)
+            return base
+        d = A.declref(obj)
+        if d is not None and depth < 3 and d["decl"] in self.locals and "init" in self.locals[d["decl"]] and self.assigned.get(d["decl"], 0) == 0:
+            return self._elem_of(self.locals[d["decl"]]["init"], depth + 1)
+        return None
+
     def _hook(self, n, tr):
         k = n["k"]
+        if k == "MemberExpr" and n.get("c") and not A.is_this(n["c"][0]):
+            oty = (A.strip(n["c"][0], casts=False).get("ctype") or "").replace("const ", "").strip()
+            if oty in ("vfps::SourceMap::hi", "hi"):
+                # a field of a stencil-table entry: named after the table, not after the local it was copied to
+                if self._elem_of(n["c"][0]) == "_hinfo":
+                    return tr.sym("h." + n["member"]["name"])
         if k == "ArraySubscriptExpr":
             base, idx = self._subscript_chain(n)
             if base is None:
@@ -207,6 +232,10 @@ class Scanner:
                 break
         idx.reverse()
         base = A.strip(cur)
+        d0 = A.declref(base)
+        if d0 is not None and d0["decl"] in self.ptr_alias and idx:
+            pbase, poff = self.ptr_alias[d0["decl"]]
+            return pbase, [sp.expand(poff + idx[0])] + [sp.expand(i) for i in idx[1:]]
         # a local (reference) variable bound to an expression denotes that expression
         d = A.declref(base)
         if d is not None and d["decl"] in self.tr.env and d["decl"] in self.locals and \
@@ -218,6 +247,30 @@ class Scanner:
             except Unconvertible:
                 pass
         return A.show(base).replace(" ", ""), [sp.expand(i) for i in idx]
+
+    def _pointer_into(self, n):
+        n = A.strip(n)
+        if n.get("k") == "UnaryOperator" and n.get("op") == "&":
+            t = A.strip(n["c"][0], casts=False)
+            if t["k"] == "ArraySubscriptExpr" or (t["k"] == "CXXOperatorCallExpr" and t.get("op") == "[]"):
+                base, idx = self._subscript_chain(t)
+                if base is not None and len(idx) == 1:
+                    return base, idx[0]
+        if n.get("k") == "BinaryOperator" and n.get("op") == "+":
+            l, r = A.strip(n["c"][0]), n["c"][1]
+            if _is_ptr(l.get("ctype")):
+                off = self._try(r)
+                if off is not None and l.get("k") in ("DeclRefExpr", "MemberExpr"):
+                    d_ = A.declref(l)
+                    if d_ is not None and d_["decl"] in self.ptr_alias:
+                        b0, o0 = self.ptr_alias[d_["decl"]]
+                        return b0, sp.expand(o0 + off)
+                    return A.show(l).replace(" ", ""), off
+                if off is not None and l.get("k") == "BinaryOperator":
+                    inner = self._pointer_into(l)
+                    if inner is not None:
+                        return inner[0], sp.expand(inner[1] + off)
+        return None
 
     # -- helpers -----------------------------------------------------------
     def _ctx(self):
@@ -264,6 +317,15 @@ class Scanner:
             if skip is not None and x is skip:
                 continue
             k = x["k"]
+            if k == "UnaryOperator" and x.get("op") == "&":
+                t = A.strip(x["c"][0], casts=False)
+                if t["k"] == "ArraySubscriptExpr":
+                    # taking the address of an element reads nothing but the index expression
+                    stack.append(t["c"][1])
+                    b_ = A.strip(t["c"][0], casts=False)
+                    if b_["k"] not in ("DeclRefExpr", "MemberExpr"):
+                        stack.append(b_)
+                    continue
             if k == "ArraySubscriptExpr" or (k == "CXXOperatorCallExpr" and x.get("op") == "[]"):
                 # only outermost of a chain
                 base, idx = self._subscript_chain(x)
@@ -389,6 +451,11 @@ class Scanner:
                 if d.get("k") != "VarDecl":
                     continue
                 self.locals[d["decl"]] = d
+                if "init" in d and _is_ptr(d.get("ctype") or d.get("type")) and self.assigned.get(d["decl"], 0) == 0:
+                    # pointer into an array: T* p = &a[e]  or  T* p = a + e   ->  p[i] is a[e + i]
+                    pa = self._pointer_into(d["init"])
+                    if pa is not None:
+                        self.ptr_alias[d["decl"]] = pa
                 if "init" in d:
                     self._loads(d["init"])
                     v = self._try(d["init"])
